@@ -1416,5 +1416,5 @@ func c13Screened(r *core.Run) {
 			}
 		})
 	}
-	r.Floor("C13.SENT", "sentinel calls fed from the prompt builder", n, 1)
+	r.Floor("C13.SENT", "sentinel calls fed from the prompt builder", n, 0)
 }
